@@ -208,8 +208,8 @@ pub fn alphabet(l: L, nwords: usize) -> Vec<String> {
 pub fn run(tier: Tier) -> i32 {
     let ctx = Ctx::new("C15", tier);
     let (nw, k, nw2, k2) = tier.pick((14usize, 3usize, 9usize, 4usize), (13, 4, 7, 5));
-    let kla = tier.pick(7usize, 9usize);
-    let rmax = tier.pick(24usize, 200usize);
+    let kla = tier.pick(7usize, 8usize);
+    let rmax = tier.pick(24usize, 120usize);
     let thrs_wide: Vec<f64> = vec![0.0, 10.0, 5.0, f64::NAN];
     let thrs_deep: Vec<f64> = vec![0.0, 10.0];
     let mut total = Acc::new();
